@@ -33,6 +33,7 @@ theorem run_good (u : Uni) : ∀ (n : Norm) (t : List Char) (r : List Char × Li
   | .unicode f, t, r, h => by
     simp only [run, Option.some.injEq] at h; subst h; exact (unicode_good' u f t).1
   | .replace c ms, t, r, h => replace_good t c ms r (by simpa only [run] using h)
+  | .replaceErr, _, _, h => by simp [run] at h
   | .seq ns, t, r, h =>
     runSeq_good u ns t (t, List.range' 0 (blen t)) r (identity_good t) (by simpa only [run] using h)
 
@@ -107,6 +108,7 @@ def replaceFree : Norm → Bool
   | .bert _ _ => true
   | .unicode _ => true
   | .replace _ _ => false
+  | .replaceErr => false
   | .seq ns => allReplaceFree ns
 def allReplaceFree : List Norm → Bool
   | [] => true
@@ -119,6 +121,7 @@ theorem run_total (u : Uni) : ∀ (n : Norm) (t : List Char), replaceFree n = tr
   | .bert _ _, _, _ => by simp [run]
   | .unicode _, _, _ => by simp [run]
   | .replace _ _, _, h => by simp [replaceFree] at h
+  | .replaceErr, _, h => by simp [replaceFree] at h
   | .seq ns, t, h => by
     simp only [run]
     exact runSeq_total u ns (blen t) _ (by simpa only [replaceFree] using h)
@@ -144,6 +147,7 @@ def hasCharwise : Norm → Bool
   | .bert l s => l || s
   | .unicode _ => true
   | .replace _ _ => false
+  | .replaceErr => false
   | .seq ns => anyCharwise ns
 def anyCharwise : List Norm → Bool
   | [] => false
@@ -183,6 +187,7 @@ theorem run_allB (u : Uni) : ∀ (n : Norm) (t : List Char) (r : List Char × Li
   | .unicode f, t, r, _, h => by
     simp only [run, Option.some.injEq] at h; subst h; exact (unicode_good' u f t).2
   | .replace _ _, _, _, hc, _ => by simp [hasCharwise] at hc
+  | .replaceErr, _, _, hc, _ => by simp [hasCharwise] at hc
   | .seq ns, t, r, hc, h =>
     runSeq_allB u ns t (t, List.range' 0 (blen t)) r (identity_good t)
       (Or.inr (by simpa only [hasCharwise] using hc)) (by simpa only [run] using h)
